@@ -63,6 +63,9 @@
 //! observed line (one group per client, joined by ` | `):
 //!   `res=<ok|fail:CLASS> cfg=<ok|err:…> h=<handler runs> peer=<…> ext=<…> plain=<0|1> dial=<0|1>`
 use crate::common::*;
+// `resume`: two servers in one process, a client that offers the second the session of the first (seed C15g)
+#[path = "c15_r.rs"]
+mod r;
 use std::future::Future;
 use std::io;
 use std::pin::Pin;
@@ -1610,6 +1613,9 @@ pub fn execute(case: &str) -> String {
     if case.starts_with("tlsf ") {
         return execute_tlsf(case);
     }
+    if case.starts_with("resume ") {
+        return r::execute_resume(case);
+    }
     let c = match parse(case) {
         Some(c) => c,
         None => return "bad-case".into(),
@@ -2265,8 +2271,11 @@ fn shared_cases(thorough: bool, rng: &mut Rng, out: &mut Vec<String>) {
 }
 
 pub fn generate(tier: &str, rng: &mut Rng) -> Vec<String> {
+    let mut resume_cases: Vec<String> = Vec::new();
+    r::generate_resume(&mut resume_cases);
     let thorough = tier == "thorough";
     let mut out: Vec<String> = CORPUS.iter().map(|s| s.to_string()).collect();
+    out.extend(resume_cases);
 
     // the property's matrix, exhaustively, over real TCP and over the in-memory pipe; thorough
     // also through lazily connected channels
